@@ -467,7 +467,7 @@ def plane_req(pl, mode, rank=None):
     L = plane_mask_layers(pl)
     if isinstance(L, int): mask = {'scalar': L}
     else: mask = {'shape': [int(s) for s in L[0].shape], 'layers': [[int(x) for x in lay.ravel()] for lay in L]}
-    r = {'kind': 'pupil' if pl['kind'] == 'pupil' else 'plane', 'amp': attr_req(pl['amp'], mode), 'opd': attr_req(pl['opd'], mode), 'mask': mask, 'px': pl['px'] if rank is None else px_code(pl['px'], rank)}
+    r = {'kind': pl['kind'] if pl['kind'] in ('pupil', 'image') else 'plane', 'amp': attr_req(pl['amp'], mode), 'opd': attr_req(pl['opd'], mode), 'mask': mask, 'px': pl['px'] if rank is None else px_code(pl['px'], rank)}
     if pl['kind'] == 'pupil': r['fl'] = vlib.fbits(pl['fl'])
     return r
 
